@@ -1167,7 +1167,7 @@ def _step(x, up):
     key = ("nextafter", up, x.get_id())
     if key in ex.memo:
         return ex.memo[key]
-    t = _UP(x) if up else _DOWN(x)
+    t = ex.fresh_real('up' if up else 'down')   # Ackermannised one-step function
     ex.assume(t > x if up else t < x, axiom=True)
     # gap axioms against every input float and every other stepped term known on this path
     others = list(FLOAT_ATOMS) + [v for (k, v) in ex.memo.items() if k and k[0] == "nextafter_arg"]
